@@ -23,23 +23,23 @@ func pickW(rng *rand.Rand, items []string, weights []int) string {
 }
 
 var faultKinds = map[string][]string{
-	"cloud.create":    {"err", "quota-eni", "vsw", "quota-ip", "err-after", "slow", "throttle"},
-	"cloud.attach":    {"err", "err-after", "never", "throttle"},
-	"cloud.detach":    {"err", "err-after"},
-	"cloud.delete":    {"err", "err-after"},
-	"cloud.assign4":   {"err", "vsw", "quota-ip", "count4", "err-after", "slow"},
-	"cloud.assign6":   {"err", "vsw", "quota-ip", "err-after", "slow"},
-	"cloud.unassign4": {"err", "err-after"},
-	"cloud.unassign6": {"err", "err-after"},
-	"cloud.describe":  {"err", "throttle"},
-	"cloud.wait":      {"err"},
+	"cloud.create":      {"err", "quota-eni", "vsw", "quota-ip", "err-after", "slow", "throttle"},
+	"cloud.attach":      {"err", "err-after", "never", "throttle"},
+	"cloud.detach":      {"err", "err-after"},
+	"cloud.delete":      {"err", "err-after"},
+	"cloud.assign4":     {"err", "vsw", "quota-ip", "count4", "err-after", "slow"},
+	"cloud.assign6":     {"err", "vsw", "quota-ip", "err-after", "slow"},
+	"cloud.unassign4":   {"err", "err-after"},
+	"cloud.unassign6":   {"err", "err-after"},
+	"cloud.describe":    {"err", "throttle"},
+	"cloud.wait":        {"err"},
 	"api.status-update": {"err", "err-after", "conflict"},
-	"api.get":         {"err"},
-	"api.list":        {"err"},
-	"api.patch":       {"err", "err-after"},
-	"api.status-patch": {"err"},
-	"api.create":      {"err"},
-	"disk.put":        {"err"},
+	"api.get":           {"err"},
+	"api.list":          {"err"},
+	"api.patch":         {"err", "err-after"},
+	"api.status-patch":  {"err"},
+	"api.create":        {"err"},
+	"disk.put":          {"err"},
 }
 
 var faultSites = []string{"cloud.create", "cloud.attach", "cloud.detach", "cloud.delete", "cloud.assign4", "cloud.assign6", "cloud.unassign4", "cloud.unassign6",
@@ -53,7 +53,9 @@ func generate(rng *rand.Rand, prop, tier string) *Scenario {
 	c.Adapters = 2 + rng.IntN(4)
 	c.IPv4Per = 2 + rng.IntN(6)
 	c.IPv6Per = c.IPv4Per
-	if rng.IntN(4) == 0 {
+	// the node agent switches IPv6 off in multi-IP mode unless both per-adapter quotas are equal
+	// (daemon.go: SupportMultiIPIPv6), so a differing IPv6 quota is reachable with an IPv4 stack only
+	if rng.IntN(4) == 0 && c.Stack == "v4" {
 		c.IPv6Per = 1 + rng.IntN(c.IPv4Per)
 	}
 	c.Trunk = c.Adapters >= 3 && rng.IntN(5) == 0
